@@ -378,6 +378,13 @@ def specifiedOf (fl : Flags) : Bool := !fl.types.isEmpty && !isStar fl.types
 def aioOf (pkg : Pkg) (fl : Flags) : String :=
   if fl.file == "" && fl.types.contains "*" then findAllInOne fl.cmdline pkg else ""
 
+/-- Clean: it does anything only when `!Separate && allInOneFile != ""`; `aiofile` is what LoadPackage's go:generate lookup finds
+    (it is consulted only without -file and with "*" among the type names) -/
+def cleanActiveWith (fl : Flags) (aiofile : String) : Bool :=
+  !(specifiedOf fl || fl.sep) && (if fl.file == "" && fl.types.contains "*" then aiofile else "") != ""
+
+def cleanActiveOf (pkg : Pkg) (fl : Flags) : Bool := cleanActiveWith fl (findAllInOne fl.cmdline pkg)
+
 /-- confirmTypes: (TypeNames, fileNameMap, a warning was printed) -/
 def confirmTypes (cmd : Cmd) (pkg : Pkg) (fl : Flags) : Except Stop (List String × List (String × String) × Bool) :=
   if specifiedOf fl then
